@@ -29,6 +29,7 @@ func (c *Ctx) Replay(job, wit string, capS int) error {
 		RaceChild(&sc, capS)
 	case sc.Mode == "iso":
 		isoBare = sc.Iso.Bare
+		isoWide = sc.Iso.Wide
 		base, before, after, pan := isoRun(-1, 0)
 		if pan != "" {
 			c.fail("panic", sc.witness(), pan)
